@@ -500,6 +500,31 @@ def localise(store, peer_table, cmap, crit):
     return py_minimal_names(store, local)
 
 
+def add_twins(rng, pf, lockf, loc, notes):
+    """a peer publishing the same audit twice (two reviewers: same kind and criteria, other who/notes),
+    with none, one or both copies already in imports.lock"""
+    for n, l in list(pf["audits"].items()):
+        if not l or rng.random() > 0.3:
+            continue
+        a = rng.choice([x for x in l if x.get("kind") != "violation"] or [None])
+        if a is None:
+            continue
+        twin = dict(a)
+        twin["notes"] = notes()
+        twin["who"] = ["second reviewer"]
+        l.append(twin)
+        r = rng.random()
+        have = [x for x in lockf["audits"].get(n, []) if x.get("notes") == a.get("notes")]
+        if r < 0.5 and not have:
+            la = dict(a)
+            la["criteria"] = loc(a["criteria"])
+            lockf["audits"].setdefault(n, []).append(la)
+        elif r < 0.65:
+            lt = dict(twin)
+            lt["criteria"] = loc(twin["criteria"])
+            lockf["audits"].setdefault(n, []).append(lt)
+
+
 def gen_unlocked_case(rng, cid, p_violation=0.05, ncustom=None):
     pkgs = gen_graph(rng)
     store = gen_store(rng, pkgs, p_violation=p_violation, with_imports=False, ncustom=ncustom)
@@ -554,6 +579,7 @@ def gen_unlocked_case(rng, cid, p_violation=0.05, ncustom=None):
                 for x in a:
                     x["criteria"] = py_minimal_names(store, set().union(*[py_closure(store, c) for c in x["criteria"]]))
                     lockf["audits"].setdefault(n, []).append(x)
+        add_twins(rng, pf, lockf, lambda cl: localise(store, ptable, cmap, cl), notes)
         peers_struct[url] = pf
         if rng.random() < 0.8:
             store["lock"]["audits"][peer] = lockf
@@ -1333,6 +1359,14 @@ def gen_serde_case(rng, cid):
         store["exemptions"].setdefault(n, []).append({"version": "1.2.3@git:" + GITREV, "criteria": ["safe-to-run"], "notes": "git"})
         store["audits"].setdefault(n, []).append({"kind": "delta", "from": "1.2.3", "to": "1.2.3@git:" + GITREV,
                                                   "criteria": ["safe-to-deploy"], "notes": "git delta"})
+    # versioned policy entries whose versions carry a git revision (next to the plain version)
+    if rng.random() < 0.45:
+        n = rng.choice(["zz-pol"] + sorted({p["name"] for p in pkgs if not any(k.split(":")[0] == p["name"] for k in store["policy"])}))
+        store["policy"][f"{n}:1.2.3@git:{GITREV}"] = {"notes": "the fork", "criteria": crit_list(rng, crits)}
+        if rng.random() < 0.6:
+            store["policy"][f"{n}:1.2.3"] = {"notes": "the release", "audit-as-crates-io": False}
+        if rng.random() < 0.3:
+            store["policy"][f"{n}:2.0.0-rc.1+build.5"] = {"dependency-criteria": {"dep-x": crit_list(rng, crits, allow_empty=True)}}
     if rng.random() < 0.3:
         store["default-criteria"] = rng.choice(crits)
     return finalize({"id": cid, "kind": "serde", "store_struct": store})
